@@ -1,6 +1,7 @@
 package main
 
 import (
+	"time"
 	"fmt"
 	"reflect"
 
@@ -20,7 +21,16 @@ var textMode bool // CTE: typed arrays are written element by element, so a cut 
 
 // isPrefixValue: partial ⊑ full — everything present in partial is in full, unchanged or as a
 // prefix of the corresponding container; zero values / nils count as "not yet decoded".
+var prefixDepth int
+
 func isPrefixValue(p, f reflect.Value, path string) (bool, string) {
+	// a value of a document is a tree (documents of this check have no references): a partial result
+	// that keeps descending contains a cycle the document does not have
+	prefixDepth++
+	defer func() { prefixDepth-- }()
+	if prefixDepth > 5000 {
+		return false, path[:min(len(path), 80)] + "...: the partial result contains a cycle"
+	}
 	for p.IsValid() && p.Kind() == reflect.Interface && !p.IsNil() {
 		p = p.Elem()
 	}
@@ -140,6 +150,8 @@ func elemIsNumeric(k reflect.Kind) bool {
 }
 
 // C09: truncated documents are rejected and partial results are prefixes.
+var abortC09 bool
+
 func runC09(r *Run) {
 	cfg := configuration.New()
 	r.each(func(idx int, rng *Rng) {
@@ -228,14 +240,39 @@ func runC09(r *Run) {
 		}
 		for _, dc := range docs {
 			unm := func(b []byte) (interface{}, error, interface{}) {
-				return safeCall(func() (interface{}, error) {
-					if dc.format == "cbe" {
-						return ce.UnmarshalFromCBEDocument(b, dc.template, cfg)
-					}
-					return ce.UnmarshalFromCTEDocument(b, dc.template, cfg)
-				})
+				if abortC09 {
+					return nil, fmt.Errorf("skipped: an earlier call is still running"), nil
+				}
+				type res struct {
+					v   interface{}
+					err error
+					pan interface{}
+				}
+				ch := make(chan res, 1)
+				go func() {
+					v, err, pan := safeCall(func() (interface{}, error) {
+						if dc.format == "cbe" {
+							return ce.UnmarshalFromCBEDocument(b, dc.template, cfg)
+						}
+						return ce.UnmarshalFromCTEDocument(b, dc.template, cfg)
+					})
+					ch <- res{v, err, pan}
+				}()
+				select {
+				case x := <-ch:
+					return x.v, x.err, x.pan
+				case <-time.After(60 * time.Second):
+					// the call does not return (a truncated document must be refused, not chewed on for ever):
+					// reported, and nothing is measured after it - the goroutine is still running
+					abortC09 = true
+					r.out.Finding("C09", "hang:"+dc.format, fmt.Sprintf("unmarshaling %d bytes of a %d-byte document does not return within 60 s", len(b), len(dc.doc)), dc.format+":"+hx(b))
+					return nil, fmt.Errorf("hang"), nil
+				}
 			}
 			full, ferr, fpan := unm(dc.doc)
+			if abortC09 {
+				return
+			}
 			if ferr != nil || fpan != nil {
 				r.out.Count("skipped:full-document-fails")
 				continue
